@@ -57,22 +57,33 @@ impl SubscriptionManager {
             return Err(CreateSubscriptionError::MustBeInSameProjectAsTopic);
         }
 
-        // Create the subscription and store it in state.
-        let subscription = {
-            let mut state = self.state.write();
-            // Create a delegate that the subscription can use to call back out.
-            let delegate = SubscriptionManagerDelegate::new(Arc::clone(&self.state));
-            state.create_subscription(info, topic.clone(), self.push_registry.clone(), delegate)?
-        };
+        // Creating the subscription and attaching it to its topic belong together:
+        // if the caller goes away in between (e.g. while waiting for room in the topic's
+        // mailbox), the subscription would exist without ever receiving a message.
+        // Both steps are therefore done by a task of their own, which runs to
+        // completion regardless of the caller.
+        let state = Arc::clone(&self.state);
+        let push_registry = self.push_registry.clone();
+        tokio::spawn(async move {
+            // Create the subscription and store it in state.
+            let subscription = {
+                // Create a delegate that the subscription can use to call back out.
+                let delegate = SubscriptionManagerDelegate::new(Arc::clone(&state));
+                let mut state = state.write();
+                state.create_subscription(info, topic.clone(), push_registry, delegate)?
+            };
 
-        topic
-            .attach_subscription(subscription.clone())
-            .await
-            .map_err(|e| match e {
-                AttachSubscriptionError::Closed => CreateSubscriptionError::Closed,
-            })?;
+            topic
+                .attach_subscription(subscription.clone())
+                .await
+                .map_err(|e| match e {
+                    AttachSubscriptionError::Closed => CreateSubscriptionError::Closed,
+                })?;
 
-        Ok(subscription)
+            Ok(subscription)
+        })
+        .await
+        .unwrap_or(Err(CreateSubscriptionError::Closed))
     }
 
     /// Gets a subscription.
